@@ -36,6 +36,22 @@ pub fn corpus() -> &'static Vec<Vec<Blk>> {
             }
             out.push(blocks);
         }
+        // a genesis-rooted chain from the block artefacts (genesis.block has slot 0 / number 0), so that the
+        // Origin success path of read_blocks_from_point is reachable
+        let mut g: Vec<Blk> = vec![];
+        for name in ["genesis", "byron4", "byron5", "byron7", "byron3", "byron2", "byron6"] {
+            if let Ok(txt) = std::fs::read_to_string(format!("/repo/test_data/{name}.block")) {
+                if let Ok(bytes) = hex::decode(txt.trim()) {
+                    if let Ok(b) = MultiEraBlock::decode(&bytes) {
+                        g.push(Blk { slot: b.slot(), hash: b.hash().to_vec(), number: b.number(), bytes: bytes.clone() });
+                    }
+                }
+            }
+        }
+        g.sort_by_key(|b| b.slot);
+        if g.first().map(|b| b.slot == 0 && b.number == 0).unwrap_or(false) {
+            out.push(g);
+        }
         out
     })
 }
